@@ -66,7 +66,7 @@ func cmdManifest() int {
 		"setup_cmd": "cd /verif/govc && GOFLAGS=-mod=mod GOPROXY=off GOSUMDB=off GOTOOLCHAIN=local go build -o ../bin/govc .",
 		"hooks": map[string]any{
 			"guard":            "verif",
-			"enable":           "contracts live in comment-only files <pkg>/zz_verif_contracts.go carrying //go:build verif; govc reads them as text next to the package sources, the Go compiler never sees them without -tags verif",
+			"enable":           "contracts live in comment-only files <pkg>/zz_verif_contracts.go carrying //go:build verif (govc reads them as text next to the package sources); the harness functions that state round trips by calling the real functions (protocol/model, protocol/jt808 and terminal: zz_verif_roundtrip.go) carry the same tag; the Go compiler sees none of them without -tags verif",
 			"baseline_off_cmd": "for m in protocol service attachment terminal shared; do (cd /repo/$m && GOFLAGS=-mod=mod GOPROXY=off GOSUMDB=off go test -vet=off -count=1 ./...) || exit 1; done",
 			"source_commits":   hookCommits(),
 			"add_only":         true,
